@@ -89,6 +89,16 @@ def run(ctx):
     tpath = ctx.path("topo_race.jsonl")
     open(tpath, "w").write("\n".join(member[:int(n(5, 30))]) + "\n")
     scenarios.append(("topology-hammer", ["topo", "-in", tpath, "-out", ctx.path("topo_race.json"), "-base", "5", "-max", "400", "-budget", "8000", "-hammer", "4"]))
+    # plan creation and consumption while membership events are applied (LoadBalancer.tla behaviours, in memory: no
+    # socket operations order the goroutines, so the detector sees every unsynchronised access of this family)
+    from checks import c15
+    sim = ctx.tlc("LoadBalancer", "LoadBalancer_sim.cfg", simulate="num=%s" % n(300, 2000), depth=60, workers=1, timeout=900, count=False, name="lb-simulate")
+    lbpath = ctx.path("lb_behaviours.jsonl")
+    if c15.extract_behaviours(sim.output, lbpath) == 0:
+        raise core.Inconclusive("no load-balancer behaviours exported by TLC")
+    lblines = list(dict.fromkeys(open(lbpath).read().splitlines()))
+    open(lbpath, "w").write("\n".join(lblines[:int(n(150, 1000))]) + "\n")
+    scenarios.append(("lb-plans-under-membership-changes", ["lb", "-in", lbpath, "-out", ctx.path("lb_conc.json"), "-concurrent", "100000"]))
     extra = os.path.join(core.VERIF, "checks", "c18_extra.py")
     reports = 0
     ran = []
